@@ -136,3 +136,68 @@ contract('mapproxy.image:bbox_position_in_image', props=['C17', 'C01'],
              'result[0][0] >= 0 and result[0][1] >= 0',
          ],
          must_fail='result[1][0] == 0')
+
+
+# ---- the resolution gate itself: ResolutionRange.contains ---------------------------------------------------------------
+GR = 'mapproxy.grid:'
+cls(GR + 'ResolutionRange', fields=dict(min_res='opt[real]', max_res='opt[real]'))
+
+
+def _gen_rr(gen, rng):
+    from contracts.builders import _real
+    mn = rng.choice([None, None, 100, 50, 10.5])
+    mx = rng.choice([None, None, 1, 5, 0.25])
+    w, h = rng.choice([100, 1000, 25600, 51200]), rng.choice([100, 1000, 25600, 10240])
+    return {'self': {'$cls': 'mapproxy.grid:ResolutionRange', 'min_res': _real(mn) if mn is not None else None,
+                     'max_res': _real(mx) if mx is not None else None},
+            'bbox': {'$tuple': [_real(0), _real(0), _real(w), _real(h)]},
+            'size': {'$tuple': [rng.choice([256, 128, 512]), rng.choice([256, 128, 512])]},
+            'srs': {'$pyobj': ('mapproxy.srs', 'SRS', [rng.choice([3857, 25832])])}}
+
+
+_RR_BODY = """result == ((not self.min_res or (self.min_res + 0.000001 > %(x)s and self.min_res + 0.000001 > %(y)s))
+                         and (not self.max_res or (self.max_res <= %(x)s and self.max_res <= %(y)s)))"""
+contract(GR + 'ResolutionRange.contains', props=['C17'],
+         types=dict(bbox='tuple[real,real,real,real]', size='tuple[int,int]', srs='opaque'), returns='bool',
+         opaque_fields={'is_latlong': 'bool'}, stable_fields=['is_latlong'],
+         inline=['bbox_size', 'bbox_width', 'bbox_height'], opaque=['deg_to_m'],
+         opaque_spec={'deg_to_m': {'returns': 'real', 'pure': True, 'func': True}},
+         requires=['size[0] > 0 and size[1] > 0'], fuzz_gen=_gen_rr,
+         ensures=[
+             # a request is inside the range only if BOTH its x and its y resolution are: finer than min_res (+1e-6 slack)
+             # and not finer than max_res
+             'implies(not srs.is_latlong, ' + _RR_BODY % {'x': '((bbox[2] - bbox[0]) / size[0])', 'y': '((bbox[3] - bbox[1]) / size[1])'} + ')',
+             'implies(srs.is_latlong, ' + _RR_BODY % {'x': '(deg_to_m(bbox[2] - bbox[0]) / size[0])',
+                                                      'y': '(deg_to_m(bbox[3] - bbox[1]) / size[1])'} + ')',
+         ],
+         must_fail='result == True')
+
+
+# ---- only the configured dimension parameters are forwarded: MapQuery.dimensions_for_params -------------------------------
+cls('mapproxy.layer:MapQuery', fields=dict(bbox='opaque', size='opaque', srs='opaque', format='opaque', transparent='opaque',
+                                           tiled_only='opaque', dimensions='dict[str,opaque]'))
+_DIM_NAMES = ['time', 'TIME', 'elevation', 'dim_reference_time', 'DIM_Reference_Time', 'dim_elevation_offset', 'dim_level', 'im_level',
+              'dim', 'e', '', 'reference', 'Time']
+
+
+def _gen_dims_for(gen, rng):
+    dims = {rng.choice(_DIM_NAMES): str(rng.randint(0, 9)) for _ in range(rng.randint(0, 4))}
+    return {'self': {'$cls': 'mapproxy.layer:MapQuery', 'dimensions': {'$pydict': dims}},
+            'params': [rng.choice(_DIM_NAMES) for _ in range(rng.randint(0, 3))]}
+
+
+def _dims_exact(args, result):
+    """exactly the dimensions whose name equals (case-insensitively) one of the configured parameter names"""
+    want = set(p.lower() for p in args['params'])
+    return result == dict((k, v) for k, v in args['self'].dimensions.items() if k.lower() in want)
+
+
+contract('mapproxy.layer:MapQuery.dimensions_for_params', props=['C17'],
+         types=dict(params='list[str]'), returns='dict[str,opaque]',
+         ensures=["""forall_str(lambda k: (k in result) == (k in self.dimensions and
+                        exists(lambda j: 0 <= j < len(params) and str_lower(params[j]) == str_lower(k))))""",
+                  # the same statement as a bounded check on the real function (runs even if a change takes the function
+                  # out of the verifier's subset)
+                  _dims_exact],
+         fuzz_gen=_gen_dims_for, bounded=dict(n=3000, seconds=5),
+         must_fail='len(result) == 0')
